@@ -84,7 +84,7 @@ def scenarios(quick):
              "text-set": 'for any t in ("a", "bb") : (t == "bb")', "array": "for any x in tests.integer_array : (x == 1)", "dict": 'for any k, v in tests.string_dict : (k == "foo")',
              "of-rule-set": "any of (it_*)"}
     for kind, body in inner.items():
-        src = 'import "tests" rule it_a { condition: true } rule loops { strings: $a = "aa" $b = "bc" condition: $a and for all i in (1..600) : (%s) }' % body
+        src = 'import "tests" rule it_a { condition: true } rule loops { strings: $a = "aa" %scondition: $a and for all i in (1..600) : (%s) }' % ('$b = "bc" ' if "$b" in body else "", body)
         add("scan:iterator-page:" + kind, ["compiler 0", "add 0 - " + yv.hx(src), "getrules 0 0", "cdestroy 0"], ["scanner 0 0", "scan target=s0 via=mem data=" + yv.hx(b"..aa..bc.."), "scan target=s0 via=mem data=" + yv.hx(b"..aa..bc.."), "sdestroy 0"])
     add("init-fini", [], ["fini", "init"])
     return S
@@ -123,7 +123,8 @@ def one_run(w, sc, k, mode, ref):
     can_add, can_scan = rep[it + 2], rep[it + 5]
     if can_add.get("errors") != 0 or can_scan.get("rc") != 0 or [m[0] for m in can_scan.get("t", [])] != ["m", "fin"] or rep[-1]["live"] != rep[it]["live"]:
         problems.append(("canary-misbehaves", ""))
-    return dict(hits=hits, count=count, bt=bt, problems=problems, body=body)
+    setup_failed = [c.split()[0] for c, r in zip(sc["setup"] + sc["body"], rep[2:iA] + body) if (c.split()[0] == "add" and r.get("errors") != 0) or r.get("rc") == -2 or "err" in r]
+    return dict(hits=hits, count=count, bt=bt, problems=problems, body=body, setup_failed=setup_failed)
 
 
 def strip(r):
@@ -186,6 +187,8 @@ def main():
         if r["problems"]:
             ck.violation("C16:dry-run-problem:" + sc["name"], dict(problems=r["problems"])); continue
         N = r["count"]
+        if (N == 0 and sc["name"] != "init-fini") or r["setup_failed"]:
+            ck.violation("C16:harness:scenario-does-not-run:" + sc["name"], dict(allocations=N, setup_failed=r["setup_failed"])); continue
         table.append(dict(scenario=sc["name"], allocations=N))
         ks = list(range(1, N + 1))
         for mode in (0, 1):
